@@ -27,8 +27,14 @@ func verifC02Check(label string, mi *MetaInfo, d Digest, blob []byte, p int64) {
 		verif.Assert(label+"-empty-blob-has-no-pieces", np == 0)
 		return
 	}
-	// ceil(n/p) without overflow: (n-1)/p + 1
-	verif.Assert(label+"-piece-count", int64(np) == (n-1)/p+1)
+	// np == ceil(n/p), stated without a division by the symbolic 64-bit p
+	// (bvsdiv by a symbolic divisor comes back unknown for n >= 6): for p >= n
+	// one piece; for p < n (so p*np cannot wrap: n is at most the blob bound)
+	// (np-1)*p < n <= np*p.
+	k := int64(np)
+	verif.Assert(label+"-piece-count", verif.Or(
+		verif.And(p >= n, k == 1),
+		verif.And(p < n, k >= 1, k <= n, (k-1)*p < n, n <= k*p)))
 	var total int64
 	for i := 0; i < np; i++ {
 		total += mi.GetPieceLength(i)
@@ -64,7 +70,7 @@ func verifC02Check(label string, mi *MetaInfo, d Digest, blob []byte, p int64) {
 func verifC02Blob() (Digest, []byte) {
 	d, err := NewSHA256DigestFromHex(verifC02Name)
 	verif.Assert("digest", err == nil)
-	n := verif.Len("blob_len", 0, verif.Bound("blob_len", 5, 7))
+	n := verif.Len("blob_len", 0, verif.Bound("blob_len", 5, 9))
 	return d, verif.Bytes("blob", n)
 }
 
